@@ -11,10 +11,16 @@ CORRESPONDENCE with the Lean model (`ReadStream.dump/infoBytes`, `Base32.*`, `ma
   renderings of the digest.
 """
 import base64
+import collections
+import collections.abc
 import datetime
+import enum
 import hashlib
 import io
+import itertools
 import math
+import os
+import types
 
 from harness import common
 from harness.gen import metainfo as gen
@@ -27,7 +33,13 @@ RULE = ('metainfo objects = valid torrents from the C05 grammar turned into Pyth
         'entries, plus values it must refuse (None, nan/inf, non-str keys, unrepresentable datetime) and '
         'documents validate() refuses; non-trivial = dump succeeded with validate=True and the document has '
         'a converter-only type (bool/float/datetime/tuple) or a multi-byte / order-sensitive key or a '
-        'non-UTF-8 byte string; distinct = distinct dumped bytes')
+        'non-UTF-8 byte string; distinct = distinct dumped bytes. Every document is also written with write_stream() into '
+        'fresh and used streams (BytesIO reused for a second export, position in the middle / at the end of longer and '
+        'shorter old content, a file opened r+b and read first) and with write() (new file, overwrite of a longer file). '
+        'Second stream: valid torrents with one exotic value (generator, map, filter, zip, iterator, reversed, enumerate, '
+        'chain, re-iterable non-Collection, dict views, set, frozenset, range, bytearray, memoryview, deque, UserList, '
+        'UserDict, mappingproxy, custom Sequence / Mapping / Collection, int / str / bytes subclasses) in info, in a file '
+        'entry, nested or at top level, and 2-7 export operations in a random order on ONE Torrent object')
 
 MATCHERS = {}
 
@@ -224,9 +236,82 @@ def _attempt(f):
         return {'err': ekind(e)}
 
 
+_SEQ = [0]
+
+
+def written_variants(t, V, content):
+    """write_stream() into fresh and *used* streams and write(): the bytes that end up in the stream / file.
+    `content` = what dump() returned (only its length is used, to size the old content)."""
+    n = len(content)
+    out = {}
+
+    def rec(name, f):
+        try:
+            out[name] = {'ok': f().hex()}
+        except Exception as e:  # noqa
+            out[name] = {'err': ekind(e)}
+
+    def reused():
+        b = io.BytesIO()
+        t.write_stream(b, validate=V)             # first export leaves the position at the end
+        t.write_stream(b, validate=V)             # second export into the same stream
+        return b.getvalue()
+
+    def used(old, pos):
+        def f():
+            b = io.BytesIO(old)
+            b.seek(pos)
+            t.write_stream(b, validate=V)
+            return b.getvalue()
+        return f
+    rec('bytesio reused for a second export', reused)
+    rec('bytesio with longer old content, position in the middle', used(b'x' * (n + 37), 17))
+    rec('bytesio with longer old content, position at the end', used(b'x' * (n + 5), n + 5))
+    rec('bytesio with shorter old content, position at the end', used(b'abc', 3))
+    rec('bytesio with old content, position 0', used(b'x' * (n + 9), 0))
+    _SEQ[0] += 1
+    base = os.path.join(common.worker_dir(), 'c06-%d-%d' % (os.getpid(), _SEQ[0]))
+
+    def rplus():
+        path = base + '.rplus.torrent'
+        with open(path, 'wb') as f:
+            f.write(b'd4:old!' + b'y' * (n + 11) + b'e')
+        try:
+            with open(path, 'r+b') as f:
+                f.read()                            # the caller has read the old file through this handle
+                t.write_stream(f, validate=V)
+            with open(path, 'rb') as f:
+                return f.read()
+        finally:
+            os.unlink(path)
+
+    def wfile(old):
+        def f():
+            path = base + '.write.torrent'
+            if old is not None:
+                with open(path, 'wb') as fh:
+                    fh.write(old)
+            try:
+                t.write(path, validate=V, overwrite=True)
+                with open(path, 'rb') as fh:
+                    return fh.read()
+            finally:
+                if os.path.exists(path):
+                    os.unlink(path)
+        return f
+    rec('file opened r+b, read to the end, then write_stream()', rplus)
+    rec('write() to a new file', wfile(None))
+    rec('write(overwrite=True) over a longer file', wfile(b'z' * (n + 23)))
+    return out
+
+
 def _run_chunk(cases):
     torf = common.import_torf()
     out = []
+    shared = torf.Torrent()               # ONE object that exports every document of the chunk in turn
+    shared.metainfo['info'] = {'name': 'earlier', 'piece length': 16384, 'length': 3, 'pieces': bytes(20)}
+    for f in (lambda: shared.infohash, lambda: shared.infohash_base32, lambda: shared.dump(), lambda: shared.magnet()):
+        _attempt(f)                       # ... so that also the first document of a chunk (a replayed case) has a past
     for c in cases:
         m = dec(c['m'])
         V = c['validate']
@@ -247,11 +332,21 @@ def _run_chunk(cases):
             t.write_stream(b, validate=V)
             return b.getvalue().hex()
         obs['write_stream'] = _attempt(ws)
+        if 'ok' in d:
+            obs['written'] = written_variants(t, V, d['ok'])
         obs['infohash'] = _attempt(lambda: t.infohash)
         obs['b32'] = _attempt(lambda: t.infohash_base32.decode('ascii'))
         obs['xt'] = _attempt(lambda: t.magnet().xt)
         obs['magnet_infohash'] = _attempt(lambda: t.magnet().infohash)
         obs['magnet_str'] = _attempt(lambda: str(t.magnet()))
+        # history: the same exports on an object that held (and exported) other metainfo before
+        shared.metainfo.clear()
+        shared.metainfo.update(dec(c['m']))
+        first = [('infohash', lambda: shared.infohash), ('dump', lambda: shared.dump(validate=V).hex())]
+        if len(out) % 2:
+            first.reverse()
+        rest = [('b32', lambda: shared.infohash_base32.decode('ascii')), ('xt', lambda: shared.magnet().xt)]
+        obs['reused'] = {n: _attempt(f) for n, f in first + rest}
         out.append(obs)
     return out
 
@@ -287,6 +382,21 @@ def evaluate(ctx, drv, cases):
                 top = None
             if bad is None and o['write_stream'] != o['dump']:
                 bad = ('write_stream() output differs from dump()', _short(o['write_stream']))
+            if bad is None:
+                fresh = {'infohash': o['infohash'], 'dump': o['dump'], 'b32': o['b32'], 'xt': o['xt']}
+                if o.get('reused', fresh) != fresh:
+                    bad = ('a Torrent object that held and exported other metainfo before does not export like a fresh '
+                           'object with the same metainfo (infohash / dump / base32 / magnet xt)',
+                           {k: [_short(fresh[k], 120), _short(o['reused'][k], 120)] for k in fresh if fresh[k] != o['reused'][k]})
+            if bad is None:
+                for name, w in sorted(o.get('written', {}).items()):
+                    ctx.dist['written/' + name] += 1
+                    if w != o['dump']:
+                        bad = ('the bytes written (%s) are not the dump(): the stream / file does not carry the info '
+                               'dictionary whose SHA-1 is the infohash' % name,
+                               {'variant': name, 'written': _short(w, 300), 'dump': o['dump']['ok'][:120],
+                                'strict parser on the written bytes': _diagnose(w)})
+                        break
             if bad is None and isinstance(top, dict) and b'info' in top:
                 span = spans[id(top)][b'info']
                 digest = hashlib.sha1(y[span[0]:span[1]]).digest()
@@ -369,6 +479,339 @@ def evaluate(ctx, drv, cases):
             ctx.corr_break('c06.b32', {'x': x.hex()}, br, base64.b32encode(x).decode())
 
 
+# ------------------------------------------------------------------ exotic values, several exports of ONE torrent
+class _Seq(collections.abc.Sequence):
+    def __init__(self, xs):
+        self.xs = list(xs)
+
+    def __getitem__(self, i):
+        return self.xs[i]
+
+    def __len__(self):
+        return len(self.xs)
+
+
+class _Map(collections.abc.Mapping):
+    def __init__(self, d):
+        self.d = dict(d)
+
+    def __getitem__(self, k):
+        return self.d[k]
+
+    def __iter__(self):
+        return iter(self.d)
+
+    def __len__(self):
+        return len(self.d)
+
+
+class _Coll(collections.abc.Collection):
+    def __init__(self, xs):
+        self.xs = list(xs)
+
+    def __contains__(self, x):
+        return x in self.xs
+
+    def __iter__(self):
+        return iter(self.xs)
+
+    def __len__(self):
+        return len(self.xs)
+
+
+class _ReIterable:
+    """iterable again and again, but neither Sequence nor Collection"""
+    def __init__(self, xs):
+        self.xs = list(xs)
+
+    def __iter__(self):
+        return iter(self.xs)
+
+
+class _Color(enum.IntEnum):
+    RED = 1
+
+
+class _Str(str):
+    pass
+
+
+class _Bytes(bytes):
+    pass
+
+
+def _hashable(xs):
+    return [x for x in xs if isinstance(x, (int, str, bytes))]
+
+
+def _gen(xs):
+    for x in xs:
+        yield x
+
+
+# kind -> constructor from a list of plain items.  The first group are one-shot iterators (consumed by iterating).
+EXOTIC = collections.OrderedDict([
+    ('generator', lambda xs: _gen(xs)),
+    ('genexpr', lambda xs: (x for x in xs)),
+    ('map', lambda xs: map(lambda x: x, xs)),
+    ('filter', lambda xs: filter(lambda x: True, xs)),
+    ('zip', lambda xs: zip(xs, xs)),
+    ('list_iterator', lambda xs: iter(xs)),
+    ('reversed', lambda xs: reversed(xs)),
+    ('enumerate', lambda xs: enumerate(xs)),
+    ('chain', lambda xs: itertools.chain(xs, xs[:1])),
+    ('islice', lambda xs: itertools.islice(xs, 0, None)),
+    ('dict_keyiterator', lambda xs: iter({'k%d' % i: x for i, x in enumerate(xs)})),
+    ('reiterable', lambda xs: _ReIterable(xs)),
+    ('dict_keys', lambda xs: {'k%d' % i: x for i, x in enumerate(xs)}.keys()),
+    ('dict_values', lambda xs: {'k%d' % i: x for i, x in enumerate(xs)}.values()),
+    ('dict_items', lambda xs: {'k%d' % i: x for i, x in enumerate(xs)}.items()),
+    ('set', lambda xs: set(_hashable(xs))),
+    ('frozenset', lambda xs: frozenset(_hashable(xs))),
+    ('range', lambda xs: range(len(xs))),
+    ('bytearray', lambda xs: bytearray(b'ab\x00\xff'[:len(xs) + 1])),
+    ('memoryview', lambda xs: memoryview(b'mv\x00\xff'[:len(xs) + 1])),
+    ('deque', lambda xs: collections.deque(xs)),
+    ('userlist', lambda xs: collections.UserList(xs)),
+    ('userdict', lambda xs: collections.UserDict({'k%d' % i: x for i, x in enumerate(xs)})),
+    ('ordereddict', lambda xs: collections.OrderedDict(('k%d' % (len(xs) - i), x) for i, x in enumerate(xs))),
+    ('mappingproxy', lambda xs: types.MappingProxyType({'k%d' % i: x for i, x in enumerate(xs)})),
+    ('custom_sequence', lambda xs: _Seq(xs)),
+    ('custom_mapping', lambda xs: _Map({'k%d' % i: x for i, x in enumerate(xs)})),
+    ('custom_collection', lambda xs: _Coll(xs)),
+    ('intenum', lambda xs: _Color.RED),
+    ('str_subclass', lambda xs: _Str('text')),
+    ('bytes_subclass', lambda xs: _Bytes(b'by')),
+])
+ONE_SHOT = ['generator', 'genexpr', 'map', 'filter', 'zip', 'list_iterator', 'reversed', 'enumerate', 'chain', 'islice',
+            'dict_keyiterator']
+EXPORTS = ['infohash', 'b32', 'magnet', 'magnet_str', 'dump', 'write_stream', 'write']
+
+
+def plain(v):
+    """The value a re-iterable exotic object stands for, by the converter's documented dispatch (str, float, bool,
+    Mapping -> dict, Sequence/Collection -> list); never iterates anything that is not a Collection, so one-shot
+    iterators stay what they are (PyVal.other in the model: 'Invalid value')."""
+    if type(v) in (bytes, int, bool, float) or v is None:
+        return v
+    if isinstance(v, str):
+        return str(v)
+    if isinstance(v, float):
+        return float(v)
+    if isinstance(v, int):
+        return _ReIterable([])            # int subclass: no converter applies -> other
+    if isinstance(v, collections.abc.Mapping):
+        return {k: plain(x) for k, x in v.items()}
+    if isinstance(v, (collections.abc.Sequence, collections.abc.Collection)):
+        out = [plain(x) for x in v]
+        return tuple(out) if type(v) is tuple else out
+    return v
+
+
+def _items(r):
+    k = r.random()
+    if k < 0.1:
+        return []
+    pool = ['a', 'b', 'tracker-less', 'é', 1, 0, -7, 2 ** 40, b'raw', b'\xff', 'org.example.collection']
+    xs = [r.choice(pool) for _ in range(r.randint(1, 4))]
+    if r.random() < 0.25:
+        xs.append([r.choice(pool), {'k': r.choice(pool)}])
+    return xs
+
+
+def exotic_cases(ctx, n):
+    r = ctx.rng
+    cases = []
+    kinds = list(EXOTIC)
+    fixed = [('generator', ['info', 'collections'], ['org.example.a', 'org.example.b'], ['infohash', 'dump']),
+             ('map', ['info', 'collections'], ['a'], ['dump', 'infohash']),
+             ('filter', ['info', 'x'], ['a', 1], ['infohash', 'b32']),
+             ('zip', ['top', 'x'], ['a'], ['dump', 'write_stream']),
+             ('list_iterator', ['info', 'similar'], [b'\x01' * 20], ['magnet', 'infohash', 'write'])]
+    for i in range(n):
+        if i < len(fixed):
+            kind, path, items, order = fixed[i]
+            where = path
+        else:
+            kind = r.choice(ONE_SHOT) if r.random() < 0.45 else r.choice(kinds)
+            items = _items(r)
+            key = r.choice(['collections', 'similar', 'x', 'zz', 'é', ''])
+            where = r.choice([['info', key], ['info', key], ['top', key], ['file', key], ['info', key, 'nested'],
+                              ['info', key, 'listed']])
+            order = [r.choice(EXPORTS) for _ in range(r.randint(2, 7))]
+        md = gen.metainfo(r, {})
+        m = pyify(r, md, keep_bytes=0)
+        cases.append({'kind': 'exotic', 'm': enc(m), 'exotic': {'kind': kind, 'items': enc(items)}, 'where': where,
+                      'order': order, 'validate': True,
+                      'py': "%s = %s(%r)" % (''.join('[%r]' % w for w in where), kind, items)})
+    return cases
+
+
+def _place(m, where, v):
+    """put v into the metainfo; returns False if the document has no such place"""
+    tgt = m if where[0] == 'top' else m.get('info')
+    if where[0] == 'file':
+        files = [f for f in (m.get('info') or {}).get('files', []) if isinstance(f, dict)] if isinstance(m.get('info'), dict) else []
+        if not files:
+            tgt = m.get('info')
+        else:
+            tgt = files[0]
+    if not isinstance(tgt, dict):
+        return False
+    key = where[1]
+    if where[0] == 'top' and key in ('info', 'announce', 'announce-list', 'url-list', 'httpseeds', 'creation date',
+                                     'comment', 'created by', 'encoding'):
+        key = 'x-' + key
+    if where[0] != 'top' and key.encode() in gen.RESERVED_INFO | {b'path', b'length'}:
+        key = 'x-' + key
+    if len(where) > 2:
+        v = {'inner': v} if where[2] == 'nested' else ['first', v]
+    tgt[key] = v
+    return True
+
+
+def _run_exotic_chunk(cases):
+    torf = common.import_torf()
+    out = []
+    for ci, c in enumerate(cases):
+        m = dec(c['m'])
+        items = dec(c['exotic']['items'])
+        v = EXOTIC[c['exotic']['kind']](items)
+        if not _place(m, c['where'], v):
+            out.append({'skipped': True})
+            continue
+        obs = {'mjson': pyval.to_json(plain(m)), 'type': type(v).__name__}
+        t = torf.Torrent()
+        t.metainfo.clear()
+        t.metainfo.update(m)
+        try:
+            t.validate()
+            obs['vok'] = True
+        except Exception:  # noqa
+            obs['vok'] = False
+
+        def ws():
+            b = io.BytesIO()
+            t.write_stream(b, validate=True)
+            return b.getvalue().hex()
+
+        def wr():
+            path = os.path.join(common.worker_dir(), 'c06x-%d-%d.torrent' % (os.getpid(), ci))
+            try:
+                t.write(path, validate=True, overwrite=True)
+                with open(path, 'rb') as f:
+                    return f.read().hex()
+            finally:
+                if os.path.exists(path):
+                    os.unlink(path)
+        ops = {'infohash': lambda: t.infohash, 'b32': lambda: t.infohash_base32.decode('ascii'),
+               'magnet': lambda: t.magnet().xt, 'magnet_str': lambda: str(t.magnet()),
+               'dump': lambda: t.dump(validate=True).hex(), 'write_stream': ws, 'write': wr}
+        obs['results'] = [[name, _attempt(ops[name])] for name in c['order']]
+        out.append(obs)
+    return out
+
+
+def evaluate_exotic(ctx, drv, cases):
+    results = common.pmap(_run_exotic_chunk, common.split(cases, common.NPROC * 4))
+    pairs = [(c, o) for c, o in zip(cases, [o for ch in results for o in ch]) if not o.get('skipped')]
+    replies = drv.run([{'op': 'c06.export', 'm': o['mjson'], 'vok': o['vok'], 'validate': True} for c, o in pairs])
+    for (c, o), m in zip(pairs, replies):
+        case = {k: c[k] for k in ('kind', 'm', 'exotic', 'where', 'order', 'validate', 'py')}
+        res = o['results']
+        oks = [(n, r['ok']) for n, r in res if 'ok' in r]
+        errs = [(n, r['err']) for n, r in res if 'err' in r]
+        written = [(n, x) for n, x in oks if n in ('dump', 'write_stream', 'write')]
+        accepted = bool(written)
+        ctx.case(key=('x', c['exotic']['kind'], tuple(c['where']), tuple(c['order']), written[0][1][:2000] if written else None),
+                 nontrivial=True, kind='exotic/%s/%s' % (c['exotic']['kind'], 'exported' if accepted else 'hash-only' if oks else 'refused'))
+        if ctx.dist['sampled-exotic'] < 2 and (accepted or ctx.dist['sampled-exotic'] == 0):
+            ctx.dist['sampled-exotic'] += 1
+            ctx.sample({'case': {k: case[k] for k in ('py', 'order')}, 'results': [[n, _short(r, 90)] for n, r in res]}, limit=8)
+        # ---------------- the property on what the implementation did (implementation vs specification)
+        bad = None
+        digests = []                      # (operation, the 20-byte digest it reports, as hex)
+        for n, x in oks:
+            try:
+                if n == 'infohash':
+                    digests.append((n, x if len(x) == 40 and x == x.lower() else 'malformed:' + x))
+                elif n == 'b32':
+                    digests.append((n, base64.b32decode(x).hex()))
+                elif n == 'magnet':
+                    digests.append((n, x[len('urn:btih:'):] if x.startswith('urn:btih:') else 'malformed:' + x))
+                elif n == 'magnet_str':
+                    digests.append((n, x[len('magnet:?xt=urn:btih:'):][:40] if x.startswith('magnet:?xt=urn:btih:') else 'malformed:' + x))
+            except Exception as e:  # noqa
+                digests.append((n, 'malformed:%r' % (x,)))
+        other = [(n, e) for n, e in errs if e != 'metainfo' and not (n in ('magnet', 'magnet_str') and e != 'magnet')]
+        for n, e in errs:
+            if n in ('magnet', 'magnet_str') and e not in ('metainfo', 'magnet'):
+                ctx.dist['magnet-unavailable:' + e] += 1
+        if other:
+            bad = ('an export operation raised an undocumented error', other)
+        if bad is None and len({x for _, x in written}) > 1:
+            bad = ('dump() / write_stream() / write() of one unchanged Torrent object produced different bytes', _short(written, 500))
+        if bad is None and len({d for _, d in digests}) > 1:
+            bad = ('infohash, infohash_base32 and the magnet link of one unchanged Torrent object denote different hashes',
+                   digests)
+        if bad is None and written:
+            y = bytes.fromhex(written[0][1])
+            try:
+                top, spans = bstrict.strict_parse(y)
+                if not (isinstance(top, dict) and b'info' in top):
+                    bad = ('written bytes have no info dictionary', written[0][1][:200])
+                else:
+                    a, b = spans[id(top)][b'info']
+                    d = hashlib.sha1(y[a:b]).hexdigest()
+                    wrong = [(n, x) for n, x in digests if x != d]
+                    if wrong:
+                        bad = ('the reported infohash is not the SHA-1 of the info span of the bytes that were written',
+                               {'sha1(info span of %s)' % written[0][0]: d, 'reported': digests,
+                                'info span': y[a:b][:300]})
+                    elif not digests and any(n in ('infohash', 'b32') for n, _ in errs):
+                        bad = ('the torrent was written but its infohash cannot be read', errs)
+            except bstrict.NonCanonical as e:
+                bad = ('written bytes are not canonical bencoding: %s' % e, written[0][1][:400])
+        if bad:
+            ctx.violation(bad[0] + ' [exports in this order on one Torrent: %s]' % ', '.join(c['order']), case,
+                          'every export raises MetainfoError, or all exports agree: one byte string, canonical, '
+                          'sha1(info span) == infohash == b32decode(infohash_base32) == magnet xt',
+                          {'detail': bad[1], 'results': [[n, _short(r, 200)] for n, r in res]}, finding_matchers=MATCHERS)
+            continue
+        # ---------------- correspondence with the model on the value the object stands for
+        if m['hyp'] and not m['canon']:
+            ctx.machinery_error('model dump is not canonical (contradicts C06_canonical)', case)
+            continue
+        for n, x in written:
+            if m['dump'] != {'ok': x}:
+                ctx.corr_break('c06.export/exotic-dump', case, _short(m['dump']), _short({n: x}))
+                break
+        else:
+            werrs = [(n, e) for n, e in errs if n in ('dump', 'write_stream', 'write')]
+            if werrs and m['dump'] != {'err': werrs[0][1]}:
+                ctx.corr_break('c06.export/exotic-dump', case, _short(m['dump']), werrs[0])
+                continue
+            mib = m['infoBytes']
+            for n, d in digests:
+                if 'ok' not in mib or hashlib.sha1(bytes.fromhex(mib['ok'])).hexdigest() != d:
+                    ctx.corr_break('c06.export/exotic-infohash', case, _short(mib), [n, d])
+                    break
+            else:
+                ierrs = [(n, e) for n, e in errs if n in ('infohash', 'b32')]
+                if ierrs and mib != {'err': ierrs[0][1]}:
+                    ctx.corr_break('c06.export/exotic-infohash', case, _short(mib), ierrs[0])
+
+
+def _diagnose(w):
+    if 'ok' not in w:
+        return 'raised ' + str(w.get('err'))
+    try:
+        bstrict.strict_parse(bytes.fromhex(w['ok']))
+        return 'canonical, but different from dump()'
+    except bstrict.NonCanonical as e:
+        return 'not canonical bencoding: %s' % e
+
+
 def _short(x, n=600):
     s = repr(x)
     return s if len(s) <= n else s[:n] + '…'
@@ -392,11 +835,17 @@ def run(ctx, drv):
         'Torrent.validate() is a parameter of the dump/infohash model (property C07); the harness supplies the real verdict',
         'datetime.timestamp() is an oracle carried inside PyVal.datetime',
         'base64.b32encode/b32decode/b16decode and bytes.hex are modelled (Model/Base32.lean) and compared with the standard library',
-        'sets / generators / cyclic containers are outside PyVal and are not generated',
+        'exotic values (second stream): a re-iterable Collection / Mapping is given to the model as the list / dict of its '
+        'items (taken from the same object before the exports), a one-shot iterator as PyVal.other; the demand that all '
+        'exports of one object agree with the bytes written is checked on the implementation directly '
+        '(implementation vs specification, no theorem quantifies over such values); cyclic containers are not generated',
         'torrents created from a magnet link (the _infohash fallback of Torrent.infohash) are outside the model',
     ]
     total = ctx.n(2500, 40000)
     cases = _load_corpus(ctx)
+    exo = [c for c in cases if c.get('kind') == 'exotic']
+    cases = [c for c in cases if c.get('kind') != 'exotic']
+    evaluate_exotic(ctx, drv, exo + exotic_cases(ctx, ctx.n(1500, 20000)))
     while total > 0:
         n = min(BATCH, total)
         total -= n
@@ -408,6 +857,7 @@ def run(ctx, drv):
 
 
 def search(ctx, drv):
+    evaluate_exotic(ctx, drv, exotic_cases(ctx, ctx.n(3000, 10000)))
     for _ in range(2):
         evaluate(ctx, drv, gen_cases(ctx, ctx.n(2500, 5000)))
         if ctx.violations:
@@ -419,6 +869,9 @@ def replay(ctx, drv, rp):
     c.setdefault('kind', 'replay')
     if 'm' not in c:
         return {'fails': False, 'note': 'digest-only case'}
-    evaluate(ctx, drv, [c])
+    if c.get('kind') == 'exotic':
+        evaluate_exotic(ctx, drv, [c])
+    else:
+        evaluate(ctx, drv, [c])
     return {'fails': bool(ctx.violations or ctx.corr_breaks), 'violations': ctx.violations,
             'corr_breaks': ctx.corr_breaks}
